@@ -57,7 +57,9 @@ CHECKS["C08"] = {
             "certificate from the merged configuration (must fail iff a content-less entry remains, otherwise carry exactly the effective list), "
             "and TLC re-judges a sample and all mismatches from the logged inputs. Finite domain -> exhaustive enumeration.",
     "note": "trusted: TLC + Json/SequencesExt modules; extension identity abstracted to (OID, content) with v1.CustomExtension as carrier; "
-            "random longer lists of the other real extension types are exercised under C06",
+            "seeded random lists (<= 6 profile, <= 12 certificate entries) of the real v1 extension types go through config.Merge and, the way `sign` "
+            "gets there, through a database (db.PlanBulkUpdate + db.BulkUpdate, where the merge happens inside db.validateAndMerge); MergeTrace judges "
+            "both (result, inputs unchanged, generation fails iff a content-less entry remains, extension OID sequence of the certificate)",
 }
 CHECKS["C09"] = {
     "engine": "tlc-spec", "category": "model_checking", "design_ref": "6/C09, A.2",
